@@ -153,6 +153,23 @@ func runPe(sc M) {
 		emit(ev)
 		return
 	}
+	if l.cert >= 16 && l.cert%8 == 0 && img.certva+l.cert == len(img.b) {
+		// what the process did before: it walked the signatures of this image with its certificate table holding one entry whose
+		// length is not a multiple of 8, followed by alignment bytes that are not zero (they are outside every hashed range)
+		c := append([]byte{}, img.b...)
+		put32(c, img.certva, uint32(l.cert-3))
+		put16(c, img.certva+4, 0x0200)
+		put16(c, img.certva+6, 0x0002)
+		for i := len(c) - 3; i < len(c); i++ {
+			c[i] = 0xA5
+		}
+		guard(func() error {
+			if p, err := authenticode.Parse(bytes.NewReader(c)); err == nil {
+				p.Signatures()
+			}
+			return nil
+		})
+	}
 	got, fail := libDigest(img.b)
 	ev["digest_equal"] = fail == "" && bytes.Equal(got, want)
 	if fail != "" {
